@@ -45,6 +45,11 @@ StartRes(c, H) == IF PresentShares(c, H) = Shn(c) THEN "present" ELSE "session"
 \* the UEB (hence the cap) comes from a share on the grid
 AlreadyPresent(c, H) == [H EXCEPT !.mode = "present", !.sess = NoSess,
                                   !.result = File(H.grid[CHOOSE n \in Shn(c) : TRUE].data)]
+\* Helper.remote_upload_chk while an upload of the same storage index is active ("upload is currently active"):
+\* the second client is handed the same CHKUploadHelper; its reader is added behind the first one
+\* (AskUntilSuccessMixin asks the first reader only).  The session, the files and what was fetched stay as they are.
+JoinRes(c, H) == "session"
+Join(c, H) == H
 \* a new CHKUploadHelper and, on the client, a new RemoteEncryptedUploadable at offset 0
 Start(c, H) == [H EXCEPT !.mode = "session", !.sess = [NoSess EXCEPT !.active = TRUE]]
 
